@@ -395,6 +395,8 @@ RULES = [
 
 from . import shared
 RULES = RULES + shared.bundle('C09', ['carry', 'gate', 'restart', 'values', 'stride', 'norm'], ['kernelpy', 'kernel', 'details'])
+from .. import refs as _refs
+RULES = RULES + [_refs.ref_rule('C09')]
 
 
 def run(tier="quick", replay=None):
